@@ -632,6 +632,16 @@ func runC18(p *core.Prog, r *core.Report) {
 				}
 			}
 		})
+		// the same array built by appending: from an empty slice, one append of the range value per item of m.Kv
+		if ap := appendedRangeValues(mf, kvF); ap != nil && (!okElems || !okLen) {
+			for _, al := range core.AllocsOf(mf, arr) {
+				for _, v := range core.LiteralFields(al)["Items"] {
+					if v == ssa.Value(ap) {
+						okElems, okLen = true, true
+					}
+				}
+			}
+		}
 		r.Check(okM && okElems && okLen, "C18.R4", "Map.MarshalFast", "MarshalFast encodes an Array holding exactly the values of m.Kv (len(m.Kv) items) with the generated MarshalVT", fmt.Sprintf("array+MarshalVT=%v elements-from-Kv=%v len=%v", okM, okElems, okLen), p.Pos(mf.Pos()))
 		// UnmarshalFast: Array.UnmarshalVTNoAlloc, then m.Kv[item.BlockId] = item
 		okU := len(core.FindInstrs(uf, core.IsCallTo(p.FuncObj(pkgPBOut, "Array.UnmarshalVTNoAlloc")))) == 1
@@ -650,7 +660,7 @@ func runC18(p *core.Prog, r *core.Report) {
 		for _, pr := range [][2]string{{"File.Save", "MarshalFast"}, {"File.Load", "UnmarshalFast"}} {
 			fn := p.Func(pkgExecout, pr[0])
 			found := false
-			for _, f := range core.WithClosures(fn) {
+			for _, f := range core.Family(fn, 2) {
 				if len(core.FindInstrs(f, core.IsCallTo(p.FuncObj(pkgPBOut, "Map."+pr[1])))) > 0 {
 					found = true
 				}
@@ -698,6 +708,9 @@ func runC18(p *core.Prog, r *core.Report) {
 				okSlot = true
 			}
 		})
+		if appendedRangeValues(mf, core.FieldOf(p.Named(pkgPBOut, "Map"), "Kv")) != nil {
+			okSlot = true // appended: each item takes the next slot
+		}
 		r.Check(okSlot, "C18.R4", "Map.MarshalFast/slots", "each value of m.Kv is stored into its own slot of the array (slot index advancing by one per item)", "slot index is not a counter incremented once per item, or the stored value is not the range value", p.Pos(mf.Pos()))
 		// Array decoder: each element is decoded into an Item allocated for it
 		af := p.Func(pkgPBOut, "Array.UnmarshalVTNoAlloc")
@@ -840,15 +853,35 @@ func checkSizeVsWrite(p *core.Prog, r *core.Report) {
 		return out
 	}
 	// write side: per loop iteration, cursor advances (Slice with Low) and the tag/len writes
-	writeComps := func(fn *ssa.Function) comp {
+	var advances func(blocks []*ssa.BasicBlock, depth int) comp
+	advances = func(blocks []*ssa.BasicBlock, depth int) comp {
 		out := comp{}
-		loops := core.Loops(fn)
-		if len(loops) != 1 {
-			core.Undecide("%s: expected one loop", core.FuncName(fn))
-		}
-		l := loops[0]
-		for b := range l.Body {
+		for _, b := range blocks {
 			for _, in := range b.Instrs {
+				// a helper of the package the cursor is threaded through ([]byte in, []byte out, no loop): its own
+				// advances, its parameters named after the arguments
+				if c, ok := in.(*ssa.Call); ok && depth > 0 {
+					callee := core.StaticFn(c.Common())
+					if callee != nil && callee.Blocks != nil && callee.Pkg == b.Parent().Pkg && len(core.Loops(callee)) == 0 && isByteSlice(c.Type()) {
+						threaded := false
+						for _, a := range c.Call.Args {
+							if isByteSlice(a.Type()) {
+								threaded = true
+							}
+						}
+						if threaded && callee.Name() != "unsafeGetBytes" {
+							sub := advances(callee.Blocks, depth-1)
+							for k, v := range sub {
+								for i, prm := range callee.Params {
+									if i < len(c.Call.Args) {
+										k = strings.ReplaceAll(k, "("+prm.Name()+")", "("+valName(c.Call.Args[i])+")")
+									}
+								}
+								out[k] += v
+							}
+						}
+					}
+				}
 				sl, ok := in.(*ssa.Slice)
 				if !ok || sl.Low == nil || sl.High != nil {
 					continue
@@ -872,6 +905,17 @@ func checkSizeVsWrite(p *core.Prog, r *core.Report) {
 			}
 		}
 		return out
+	}
+	writeComps := func(fn *ssa.Function) comp {
+		loops := core.Loops(fn)
+		if len(loops) != 1 {
+			core.Undecide("%s: expected one loop", core.FuncName(fn))
+		}
+		var blocks []*ssa.BasicBlock
+		for b := range loops[0].Body {
+			blocks = append(blocks, b)
+		}
+		return advances(blocks, 1)
 	}
 	entry := sizeComps(p.Func(pkgMarsh, "kvEntryByteSize"), false)
 	kvIter := sizeComps(p.Func(pkgMarsh, "ProtoingFast.kvByteSize"), true)
@@ -964,4 +1008,77 @@ func sizeArg(v ssa.Value) string {
 	}
 	// a local holding kvEntryByteSize(...)
 	return "entry"
+}
+
+// appendedRangeValues: fn builds a slice by appending, once per iteration of a range over the map field
+// kv, that iteration's value to an accumulator that starts empty (make(_, 0, _) or nil).  The accumulator
+// (the loop-header phi, which is the value after the loop) is returned; nil when the shape is not found.
+func appendedRangeValues(fn *ssa.Function, kv *types.Var) *ssa.Phi {
+	var res *ssa.Phi
+	for _, l := range core.Loops(fn) {
+		for _, hin := range l.Header.Instrs {
+			ph, ok := hin.(*ssa.Phi)
+			if !ok {
+				continue
+			}
+			if _, isSlice := ph.Type().Underlying().(*types.Slice); !isSlice || len(ph.Edges) != 2 {
+				continue
+			}
+			okInit, okStep := false, false
+			for _, e := range ph.Edges {
+				switch x := e.(type) {
+				case *ssa.MakeSlice:
+					if k, ok := x.Len.(*ssa.Const); ok && k.Value != nil && k.Int64() == 0 {
+						okInit = true
+					}
+				case *ssa.Const:
+					okInit = x.IsNil()
+				case *ssa.Call:
+					b, ok := x.Call.Value.(*ssa.Builtin)
+					if !ok || b.Name() != "append" || x.Call.Args[0] != ssa.Value(ph) || !l.Body[x.Block()] {
+						continue
+					}
+					// exactly one element: the variadic slice is a one-element array holding the range value of kv
+					okStep = core.SliceReachesPred(x.Call.Args[1], func(v ssa.Value) bool {
+						ex, ok := v.(*ssa.Extract)
+						if !ok || ex.Index != 2 {
+							return false
+						}
+						nx, ok := ex.Tuple.(*ssa.Next)
+						if !ok {
+							return false
+						}
+						rg, ok := nx.Iter.(*ssa.Range)
+						if !ok {
+							return false
+						}
+						f, _ := core.LoadedField(rg.X)
+						return f == kv
+					}, 2)
+					if sl, ok := x.Call.Args[1].(*ssa.Slice); ok {
+						if al, ok := sl.X.(*ssa.Alloc); ok {
+							if at, ok := al.Type().Underlying().(*types.Pointer).Elem().Underlying().(*types.Array); !ok || at.Len() != 1 {
+								okStep = false
+							}
+						}
+					} else {
+						okStep = false
+					}
+				}
+			}
+			if okInit && okStep {
+				res = ph
+			}
+		}
+	}
+	return res
+}
+
+func isByteSlice(t types.Type) bool {
+	sl, ok := t.Underlying().(*types.Slice)
+	if !ok {
+		return false
+	}
+	b, ok := sl.Elem().Underlying().(*types.Basic)
+	return ok && b.Kind() == types.Uint8
 }
